@@ -307,7 +307,9 @@ pub fn c14(tier: &str, seed: u64) -> Vec<Case> {
                 let rt = tokio::runtime::Builder::new_current_thread().build().unwrap();
                 let mut store2: ResourceRecordManager<'static> = ResourceRecordManager::new();
                 store2.add_authoritative_resource(ptr2);
-                rt.block_on(async { let mut ch = None; simple_mdns::verif::async_add_response_to_resources(packet, &sn2, &fn2, &mut store2, &mut ch).await; });
+                // with and without an on_discovery channel (roomy, so that nothing waits); the receiver stays alive
+                let (tx, _rx) = tokio::sync::mpsc::channel::<InstanceInformation>(64);
+                rt.block_on(async { let mut ch = if dd2.len() % 3 != 0 { Some(tx) } else { None }; simple_mdns::verif::async_add_response_to_resources(packet, &sn2, &fn2, &mut store2, &mut ch).await; });
                 Some(sorted(store2.get_domain_resources(&sn2, DomainResourceFilter::cached()).flatten().map(text::rr).collect()))
             }));
             match (r2, &res) {
@@ -495,7 +497,7 @@ fn live_tokio(tier: &str, seed: u64) -> Vec<Case> {
         // ---- discovery
         {
             let mut c = Case::oracle_only().tag("sockets-tokio").tag("tokio-discovery");
-            let me = InstanceInformation::new("me".to_string()).with_ip_address(IpAddr::V4(Ipv4Addr::new(127, 0, 0, 1))).with_port(8016);
+            let me = InstanceInformation::new("me".to_string()).with_ip_address(IpAddr::V4(Ipv4Addr::new(127, 0, 0, 1))).with_port(8016).with_attribute("path".to_string(), Some("p".repeat(242)));
             match ServiceDiscovery::new(me, "_verif14t._tcp.local", 60) {
                 Err(_) => { c = c.tag("sockets-not-exercised"); }
                 Ok(sd) => {
@@ -532,6 +534,10 @@ fn live_tokio(tier: &str, seed: u64) -> Vec<Case> {
                             if n % 20 == 0 { nap(5).await; }
                         }
                         for d in hostile.iter().take(150) { let _ = sock.send_to(d, dest); }
+                        // a discovery also answers queries about its own instance: hundreds of questions for its large TXT
+                        // record ask for a reply no datagram can carry (the send fails; the listener goes on)
+                        let own_name = Name::new_unchecked("me._verif14t._tcp.local");
+                        for k in [400usize, 1400] { let _ = sock.send_to(&amplification_query(&own_name, k), dest); }
                         nap(150).await;
                         let deadline = Instant::now() + Duration::from_secs(8);
                         let mut found = false;
@@ -726,7 +732,7 @@ fn live_discovery(tier: &str, seed: u64) -> Case {
     use std::net::UdpSocket;
     use std::time::{Duration, Instant};
     let mut c = Case::oracle_only().tag("sockets-discovery");
-    let me = InstanceInformation::new("me".to_string()).with_ip_address(IpAddr::V4(Ipv4Addr::new(127, 0, 0, 1))).with_port(8014);
+    let me = InstanceInformation::new("me".to_string()).with_ip_address(IpAddr::V4(Ipv4Addr::new(127, 0, 0, 1))).with_port(8014).with_attribute("path".to_string(), Some("p".repeat(242)));
     let sd = match std::panic::catch_unwind(|| ServiceDiscovery::new(me, "_verif14d._tcp.local", 60)) { Ok(Ok(s)) => s, _ => return c.tag("sockets-not-exercised") };
     let sock = match UdpSocket::bind("0.0.0.0:0") { Ok(s) => s, Err(_) => return c.tag("sockets-not-exercised") };
     let dest = "224.0.0.251:5353";
@@ -765,6 +771,10 @@ fn live_discovery(tier: &str, seed: u64) -> Case {
         if n % 40 == 0 { std::thread::sleep(Duration::from_millis(5)); }
     }
     for (d, _) in hostile_messages(tier, seed ^ 0xD16).into_iter().filter(|(b, _)| b.len() <= 1400).take(150) { let _ = sock.send_to(&d, dest); }
+    // a discovery also answers queries about its own instance: hundreds of questions for its large TXT record ask for
+    // a reply no datagram can carry (the send fails; the listener goes on)
+    let own_name = Name::new_unchecked("me._verif14d._tcp.local");
+    for k in [400usize, 1400] { let _ = sock.send_to(&amplification_query(&own_name, k), dest); }
     std::thread::sleep(Duration::from_millis(150));
     let deadline = Instant::now() + Duration::from_secs(8);
     let mut found = false;
@@ -898,6 +908,8 @@ pub fn c15(tier: &str, seed: u64) -> Vec<Case> {
             let iname = name_pool.remove(r.below(name_pool.len() as u64) as usize).to_string();
             let mut inst = InstanceInformation::new(iname.clone());
             for _ in 0..r.below(3) { inst = inst.with_ip_address(IpAddr::V4(Ipv4Addr::from(0x0A000000 + r.below(4) as u32))); }
+            // special IPv4 addresses are addresses too: unspecified, loopback, link-local, broadcast, multicast
+            if r.chance(1, 5) { inst = inst.with_ip_address(IpAddr::V4(Ipv4Addr::from(*r.pick(&[0u32, 0x7F000001, 0xA9FE0101, 0xFFFFFFFF, 0xE00000FB, 0x00000001, 0xC0A80001])))); }
             for _ in 0..r.below(2) {
                 // link-local, IPv4-mapped (::ffff:a.b.c.d, possibly of an IPv4 address of the same instance),
                 // IPv4-compatible, loopback, unspecified and arbitrary addresses
@@ -922,7 +934,7 @@ pub fn c15(tier: &str, seed: u64) -> Vec<Case> {
                 v.push(cc);
             }
             for _ in 0..r.below(4) {
-                let key = if r.chance(1, 30) { String::new() } else { r.pick(&["path", "v", "é", "k k", "a;b"]).to_string() };
+                let key = if r.chance(1, 30) { String::new() } else { r.pick(&["path", "v", "é", "k k", "a;b", "Path", "PATH", "ID", "É", "Key9"]).to_string() };
                 has_empty_key |= key.is_empty();
                 let val = match r.below(16) { 0..=4 => None, 5..=9 => Some(String::new()), 15 if !key.is_empty() => Some("v".repeat(254 - key.len() - r.below(2) as usize)), _ => Some(r.pick(&["1", "=x=", "ü", "a b"]).to_string()) };
                 inst = inst.with_attribute(key, val);
